@@ -211,9 +211,20 @@ func c15Run(w *mc.W, h c15History, observe bool) (stateKey string, nslots int) {
 			case "string":
 				_ = s.k.String()
 			case "ecpub":
-				_, _ = s.k.ECPubKey()
+				// what an observer hands out belongs to the caller, who may do with it what the exported
+				// fields allow (wipe a point or a scalar, overwrite a hash): no key may change through it
+				if pk, err := s.k.ECPubKey(); err == nil && pk != nil && pk.X != nil && pk.Y != nil {
+					pk.X.SetInt64(0)
+					pk.Y.SetInt64(0)
+				}
 			case "ecpriv":
-				_, _ = s.k.ECPrivKey()
+				if sk, err := s.k.ECPrivKey(); err == nil && sk != nil && sk.D != nil {
+					sk.D.SetInt64(0)
+					if sk.X != nil && sk.Y != nil {
+						sk.X.SetInt64(0)
+						sk.Y.SetInt64(0)
+					}
+				}
 			case "getters": // cheap accessors nobody expects to write
 				s.k.IsPrivate()
 				s.k.Depth()
@@ -221,7 +232,12 @@ func c15Run(w *mc.W, h c15History, observe bool) (stateKey string, nslots int) {
 				s.k.IsForNet(netParams["mainnet"])
 				s.k.IsForNet(netParams["testnet3"])
 			case "address":
-				_, _ = s.k.Address(netParams[s.net])
+				if a, err := s.k.Address(netParams[s.net]); err == nil && a != nil {
+					sa := a.ScriptAddress()
+					for i := range sa {
+						sa[i] = 0xee
+					}
+				}
 			default:
 				panic("unknown op " + op.Op)
 			}
